@@ -90,4 +90,54 @@ def jacobiNE (conj : α → α) (ω : α) (A : Csr α) (delta : Array α) (rows 
     (A.jjs i).foldl (fun t jj => wr t (rdN A.aj jj) (rd t (rdN A.aj jj) + ω * conj (rd A.ax jj) * rd delta i)) t) temp0
   rows.foldl (fun x i => wr x i (rd x i + rd temp i)) x
 
+/-! ### the Python drivers of relaxation.py (CSR input): choice of kernel, sweep range, iterations -/
+
+inductive Sweep where
+  | forward | backward | symmetric
+deriving DecidableEq, Repr
+
+/-- rows visited by `row_start, row_stop, row_step = 0, n, 1` resp. `n-1, -1, -1` -/
+def dirRows (n : Nat) (backward : Bool) : List Nat :=
+  if backward then (List.range n).reverse else List.range n
+
+/-- one directional pass of `gauss_seidel(...)`: `sor_gauss_seidel` iff `omega != 1.0` -/
+def gsPass (ω : α) (A : Csr α) (b : Array α) (backward : Bool) (x : Array α) : Array α :=
+  if ω = 1 then gaussSeidel A b (dirRows A.n backward) x
+  else sorGaussSeidel ω A b (dirRows A.n backward) x
+
+def iter {β : Type} (f : β → β) : Nat → β → β
+  | 0, x => x
+  | k+1, x => iter f k (f x)
+
+/-- `relaxation.gauss_seidel(A, x, b, iterations, sweep, omega)` (and `sor`, which forwards to it):
+`symmetric` = per iteration a forward pass then a backward pass, both with the caller's `omega` -/
+def pyGaussSeidel (ω : α) (A : Csr α) (b : Array α) (iters : Nat) (sw : Sweep) (x : Array α) : Array α :=
+  match sw with
+  | .forward => iter (gsPass ω A b false) iters x
+  | .backward => iter (gsPass ω A b true) iters x
+  | .symmetric => iter (fun x => gsPass ω A b true (gsPass ω A b false x)) iters x
+
+/-- `relaxation.jacobi(A, x, b, iterations, omega)`: all rows, fresh `temp` each call -/
+def pyJacobi (ω : α) (A : Csr α) (b : Array α) (iters : Nat) (x : Array α) : Array α :=
+  iter (fun x => jacobi ω A b (List.range A.n) (Array.replicate x.size 0) x) iters x
+
+/-- `relaxation.gauss_seidel_indexed(A, x, b, indices, iterations, sweep)` -/
+def pyGaussSeidelIndexed (A : Csr α) (b : Array α) (Id : Array Nat) (iters : Nat) (sw : Sweep) (x : Array α) : Array α :=
+  let fwd := fun x => gaussSeidelIndexed A b Id (List.range Id.size) x
+  let bwd := fun x => gaussSeidelIndexed A b Id (List.range Id.size).reverse x
+  match sw with
+  | .forward => iter fwd iters x
+  | .backward => iter bwd iters x
+  | .symmetric => iter (fun x => bwd (fwd x)) iters x
+
+/-- `relaxation.jacobi_indexed(A, x, b, indices, iterations, omega)` -/
+def pyJacobiIndexed (ω : α) (A : Csr α) (b : Array α) (indices : List Nat) (iters : Nat) (x : Array α) : Array α :=
+  iter (jacobiIndexed ω A b indices) iters x
+
+/-- `cf_jacobi` / `fc_jacobi`: per iteration `c_iterations` C-sweeps and `f_iterations` F-sweeps in the stated order -/
+def pyCFJacobi (cFirst : Bool) (ω : α) (A : Csr α) (b : Array α) (C F : List Nat) (iters fIt cIt : Nat) (x : Array α) : Array α :=
+  let cs := iter (jacobiIndexed ω A b C) cIt
+  let fs := iter (jacobiIndexed ω A b F) fIt
+  iter (fun x => if cFirst then fs (cs x) else cs (fs x)) iters x
+
 end PyamgV.K
